@@ -2,15 +2,27 @@
 """Print the prompt for a red-team sub-agent for one property (only the property text is disclosed)."""
 import json, sys
 pid = sys.argv[1]
+rnd = sys.argv[2] if len(sys.argv) > 2 else ""
 p = next(json.loads(l) for l in open('/verif/properties.jsonl') if json.loads(l)['id'] == pid)
-wt = f"/tmp/seed-{pid}"
+wt = f"/tmp/seed{rnd}-{pid}"
+prev = ""
+if rnd:
+    import os
+    mf = f"/verif/seeded/{pid}/meta.json"
+    if os.path.exists(mf):
+        m = json.load(open(mf))
+        prev = ("\n\nNOTE: a colleague already delivered the following change for this property; yours must be DIFFERENT "
+                "in mechanism and location (another function, another clause of the property, another kind of slip - "
+                "prefer stateful / multi-step sequences, two cooperating sites that each look fine alone, caching or "
+                "aliasing slips, tolerance / scaling slips, or rarely used code paths and argument forms):\n  PREVIOUS CHANGE: "
+                + str(m.get("summary", ""))[:900] + "\n  IT NEEDED: " + str(m.get("needs_to_manifest", ""))[:500])
 print(f"""You are a software engineer helping to evaluate how robust a test effort is. You work ONLY inside the git worktree {wt} (a checkout of the Python library pmgbergen/porepy; Python interpreter: /venv/bin/python; always run with the environment variable PYTHONPATH={wt}/src so that this checkout is imported, e.g. `cd {wt} && PYTHONPATH={wt}/src /venv/bin/python demo.py`). There is no network. The directory /verif is OFF LIMITS: do not read, list or use anything in it. Do not touch /repo.
 
 The library is supposed to satisfy this property:
 
 TITLE: {p['title']}
 STATEMENT: {p['statement']}
-QUANTIFIED OVER: {p['quantifier']['text']}
+QUANTIFIED OVER: {p['quantifier']['text']}{prev}
 RELEVANT SOURCE FILES: {', '.join(p['anchors']['files'])}
 
 YOUR TASK: make ONE realistic change to the library source under {wt}/src/porepy that BREAKS this property, while the code still imports and the repository's existing tests still pass. It should look like a slip a developer could plausibly make (a refactoring, an 'optimisation', an off-by-one, a swapped argument, a dropped special case, a stale cache, two sites that each look fine alone ...), NOT sabotage that any ordinary use would expose at once: the change must need something specific to manifest - an unusual but valid input, a particular multi-step sequence of operations, a particular configuration - so that the common paths exercised by the existing tests stay green.
